@@ -6,6 +6,9 @@ package main
 import (
 	"bytes"
 	"crypto/sha256"
+	stdx509 "crypto/x509"
+	"crypto/x509/pkix"
+	"encoding/asn1"
 	"encoding/hex"
 	"fmt"
 	"hash"
@@ -230,6 +233,7 @@ func loadObjects() []*Obj {
 			out = append(out, o)
 		}
 	}
+	out = append(out, kitPolicyQualifierCerts()...)
 	for i, d := range []time.Time{time.Date(2012, 1, 1, 0, 0, 0, 0, time.UTC), time.Date(2024, 1, 1, 0, 0, 0, 0, time.UTC)} {
 		if _, der, err := buildOCSP(d.Add(-time.Hour), d, d.Add(-2*time.Hour)); err == nil {
 			if o := parseObj("ocsp", fmt.Sprintf("kit-ocsp-%d", i), der); o != nil {
@@ -240,6 +244,50 @@ func loadObjects() []*Obj {
 			if o := parseObj("ocsp", fmt.Sprintf("kit-ocsp-nonext-%d", i), der); o != nil {
 				out = append(out, o)
 			}
+		}
+	}
+	return out
+}
+
+// kitPolicyQualifierCerts: certificates (dated 2024, server-auth) whose certificatePolicies carry policy qualifiers in every
+// short order — CPS only, user notice only, notice before CPS, CPS-notice-CPS, none, two policies of different shapes. The parser
+// fills one list per qualifier *kind* per policy (QualifierId has an entry per qualifier, CPSuri per CPS qualifier only, …), so
+// positions in one list are not positions in another.
+func kitPolicyQualifierCerts() []*Obj {
+	cps := func(uri string) *Node {
+		return cons(0x30, prim(0x06, []byte{0x2b, 0x06, 0x01, 0x05, 0x05, 0x07, 0x02, 0x01}), prim(0x16, []byte(uri)))
+	}
+	notice := func(text string) *Node {
+		return cons(0x30, prim(0x06, []byte{0x2b, 0x06, 0x01, 0x05, 0x05, 0x07, 0x02, 0x02}), cons(0x30, prim(0x0C, []byte(text))))
+	}
+	policy := func(oid []byte, quals ...*Node) *Node {
+		if len(quals) == 0 {
+			return cons(0x30, prim(0x06, oid))
+		}
+		return cons(0x30, prim(0x06, oid), cons(0x30, quals...))
+	}
+	dv := []byte{0x67, 0x81, 0x0c, 0x01, 0x02, 0x01} // 2.23.140.1.2.1
+	own := []byte{0x2a, 0x03, 0x04, 0x05}            // 1.2.3.4.5
+	shapes := [][]*Node{
+		{policy(dv, cps("https://cps.example.com/"))},
+		{policy(dv, notice("notice"))},
+		{policy(dv, notice("notice"), cps("https://cps.example.com/"))},
+		{policy(dv, cps("https://cps.example.com/"), notice("notice"), cps("ldap://bad.example.com/"))},
+		{policy(dv, notice("one"), notice("two"), cps("not a uri"))},
+		{policy(dv)},
+		{policy(own, notice("n")), policy(dv, cps("https://cps.example.com/"))},
+		{policy(dv, cps("https://cps.example.com/")), policy(own, notice("n"), cps("ftp://x.example.com"))},
+	}
+	var out []*Obj
+	for i, sh := range shapes {
+		val := cons(0x30, sh...).Encode()
+		der, err := BuildCert(CertSpec{DNS: []string{"pq.example.com"}, Subject: pkixName("pq.example.com"), EKUs: []stdx509.ExtKeyUsage{stdx509.ExtKeyUsageServerAuth},
+			NotBefore: time.Date(2024, 2, 1, 0, 0, 0, 0, time.UTC), ExtraExt: []pkix.Extension{{Id: asn1.ObjectIdentifier{2, 5, 29, 32}, Value: val}}})
+		if err != nil {
+			continue
+		}
+		if o := parseObj("cert", fmt.Sprintf("kit-policy-qualifiers-%d", i), der); o != nil {
+			out = append(out, o)
 		}
 	}
 	return out
